@@ -2,6 +2,7 @@ package main
 
 import (
 	"fmt"
+	"go/constant"
 	"go/token"
 	"go/types"
 	"sort"
@@ -1670,9 +1671,38 @@ func ruleCompactRangeClosed(c *Ctx, r *Reporter) {
 			fix = true
 		}
 	}
+	// (c) every selection marks the round as productive: on the edges back to a loop head that come from the selected path
+	// (behind Overlaps == true) the loop-carried flag is the constant true — whichever end of the range the file widened
+	flagStale := false
+	selected := callTrueFact(test)
+	for _, l := range GenericLoops(fn) {
+		if !l.Contains(test.Block()) {
+			continue
+		}
+		for _, ins := range l.Header.Instrs {
+			ph, ok := ins.(*ssa.Phi)
+			if !ok {
+				break
+			}
+			if b, isB := ph.Type().Underlying().(*types.Basic); !isB || b.Kind() != types.Bool {
+				continue
+			}
+			for i, e := range ph.Edges {
+				pred := l.Header.Preds[i]
+				if !l.Header.Dominates(pred) || !GuardedBy(pred, selected) {
+					continue
+				}
+				if b, isK := constBool(e); !isK || !b {
+					flagStale = true
+				}
+			}
+		}
+	}
 	switch {
 	case badDir != "":
 		r.Bad(cons, c.InsPos(test), badDir)
+	case widened["FirstKey"] && widened["LastKey"] && fix && flagStale:
+		r.Bad(cons, c.InsPos(test), "a file can be selected without the round being marked as productive (the flag that repeats the search is not set on every selection path): if the file widened the range on one side only, files of levels already scanned that overlap the new part stay behind — an older file that shares keys with a moved newer one keeps shadowing it")
 	case !widened["FirstKey"] || !widened["LastKey"]:
 		r.Bad(cons, c.InsPos(test), "files are selected by overlap with the requested range only; the range is not grown to the keys of the selected files: whole files move to the deepest level, so a file left behind that shares an out-of-range key with a moved newer file keeps shadowing the newer version (overwritten keys revert, deleted keys come back)")
 	case !fix:
@@ -3261,22 +3291,32 @@ func ruleBufferSeekStateless(c *Ctx, r *Reporter) {
 // produce: no failing exit of FetchBlock is decided by comparing the requested size with a constant (a 'reasonable limit'
 // makes large values unreadable; Manager.Get then falls through to an older table and answers with a stale version).
 func ruleNoCapOnBlockSize(c *Ctx, r *Reporter) {
-	r.Rule("fetcher-accepts-every-block-size", 1)
-	fn := c.Func("pkg/sstable", "BlockFetcher", "FetchBlock")
-	cons := "sstable.BlockFetcher.FetchBlock"
+	r.Rule("fetcher-accepts-every-block-size", 2)
+	for _, spec := range [][2]string{{"BlockFetcher", "FetchBlock"}, {"", "ParseBlockLocator"}} {
+		ruleNoCapOnBlockSizeIn(c, r, spec[0], spec[1])
+	}
+}
+
+func ruleNoCapOnBlockSizeIn(c *Ctx, r *Reporter, typ, name string) {
+	fn := c.Func("pkg/sstable", typ, name)
+	cons := "sstable." + name
+	if typ != "" {
+		cons = "sstable." + typ + "." + name
+	}
 	if fn == nil {
 		r.Unresolved(cons, "not found")
 		return
 	}
-	var sizeP *ssa.Parameter
-	for _, p := range fn.Params {
-		if p.Name() == "size" || p.Type().String() == "uint32" {
-			sizeP = p
+	// the size: a uint32 parameter, or a 32-bit field decoded from the index value
+	isSize := func(v ssa.Value) bool {
+		v = stripNumConv(v)
+		if p, ok := v.(*ssa.Parameter); ok {
+			return p.Type().String() == "uint32"
 		}
-	}
-	if sizeP == nil {
-		r.Undecided(cons, c.FnPos(fn), "no size parameter")
-		return
+		if call, ok := v.(*ssa.Call); ok {
+			return strings.HasSuffix(staticName(call), ".Uint32")
+		}
+		return false
 	}
 	capTest := func(cond ssa.Value) (bool, bool) {
 		bo, ok := cond.(*ssa.BinOp)
@@ -3289,7 +3329,7 @@ func ruleNoCapOnBlockSize(c *Ctx, r *Reporter) {
 			op = flipOp(op)
 		}
 		k, isK := constInt(y)
-		if !isK || k <= 1 || k >= 1<<32-1 || stripNumConv(x) != ssa.Value(sizeP) {
+		if !isK || k <= 1 || k >= 1<<32-1 || !isSize(x) {
 			return false, false
 		}
 		switch op {
@@ -3480,5 +3520,404 @@ func ruleMergeNextStepsOnly(c *Ctx, r *Reporter) {
 		} else {
 			r.OK(cons, c.FnPos(fn), "children are advanced with Next only")
 		}
+	}
+}
+
+// ruleHandlersAppendFreshElements (round 8): a handler that builds a repeated field in a loop must allocate each element
+// inside the loop. A pointer allocated before the loop, overwritten per iteration and appended each time makes every
+// entry of the response alias one message: N copies of the last element.
+func ruleHandlersAppendFreshElements(c *Ctx, r *Reporter) {
+	r.Rule("responses-list-distinct-elements", 1)
+	hs := c19Handlers(c, r)
+	if hs == nil {
+		return
+	}
+	var names []string
+	for n := range hs {
+		names = append(names, n)
+	}
+	sort.Strings(names)
+	n := 0
+	for _, hn := range names {
+		fn := hs[hn]
+		loops := GenericLoops(fn)
+		AllInstrs(fn, false, func(_ *ssa.Function, ins ssa.Instruction) {
+			call, ok := ins.(*ssa.Call)
+			if !ok {
+				return
+			}
+			b, isB := call.Call.Value.(*ssa.Builtin)
+			if !isB || b.Name() != "append" || len(call.Call.Args) != 2 {
+				return
+			}
+			var loop *GenericLoop
+			for _, l := range loops {
+				if l.Contains(call.Block()) && (loop == nil || loop.Contains(l.Header)) {
+					loop = l
+				}
+			}
+			if loop == nil {
+				return
+			}
+			for _, el := range sliceLiteralElems(call.Call.Args[1]) {
+				al, isAlloc := el.(*ssa.Alloc)
+				if !isAlloc || !al.Heap {
+					continue
+				}
+				n++
+				cons := fmt.Sprintf("service.KevoServiceServer.%s:append#%d", hn, n)
+				r.Check(loop.Contains(al.Block()), cons, c.InsPos(ins), "the appended element is allocated inside the loop",
+					"the element appended in the loop is allocated once, before the loop, and overwritten on every iteration: all entries of the list are the same object, the response shows N copies of the last element instead of the N elements")
+			}
+		})
+	}
+	if n == 0 {
+		r.OK("service.KevoServiceServer:loop-appends", "", "no handler appends allocated elements in a loop")
+	}
+}
+
+// ruleManifestCurrentIsListed (round 8): Manifest.Save validates Current.Config but writes Entries, and LoadManifest
+// takes the last entry for the current one: the current configuration must BE the configuration object of the listed
+// entry. In NewManifest the entry whose address becomes Current is the entry placed in Entries (same variable), so a
+// later in-place update of the configuration is what Save writes.
+func ruleManifestCurrentIsListed(c *Ctx, r *Reporter) {
+	r.Rule("current-entry-is-the-listed-entry", 1)
+	fn := c.Func("pkg/config", "", "NewManifest")
+	curF := c.Field("pkg/config", "Manifest", "Current")
+	entF := c.Field("pkg/config", "Manifest", "Entries")
+	cons := "config.NewManifest:current-vs-entries"
+	if fn == nil || curF == nil || entF == nil {
+		r.Unresolved("config.NewManifest / Manifest.{Current,Entries}", "not found")
+		return
+	}
+	var cur, listed ssa.Value
+	AllInstrs(fn, false, func(_ *ssa.Function, ins ssa.Instruction) {
+		st, ok := ins.(*ssa.Store)
+		if !ok {
+			return
+		}
+		switch fieldVarOf(st.Addr) {
+		case curF:
+			cur = st.Val
+		case entF:
+			for _, el := range sliceLiteralElems(st.Val) {
+				listed = el
+			}
+		}
+	})
+	if cur == nil || listed == nil {
+		r.Undecided(cons, c.FnPos(fn), "Current / Entries are not initialised by a recognisable literal")
+		return
+	}
+	// Current = &entry ; Entries = []ManifestEntry{entry}: listed is a load of the alloc whose address is cur
+	same := false
+	if ld, ok := listed.(*ssa.UnOp); ok && ld.Op == token.MUL && ld.X == cur {
+		same = true
+	}
+	// or both carry the same Config pointer value (field-wise construction)
+	r.Check(same, cons, c.FnPos(fn), "Current is the address of the entry that is listed", "the entry listed in Entries ("+Path(listed)+") is not the entry Current points to ("+Path(cur)+"): Save validates the one and writes the other — a valid in-place update of the configuration is reported saved, and the next open loads the stale copy")
+}
+
+// ruleTableSeekAlwaysAsksIndex (round 8): where Seek(t) lands must not depend on which block happens to be loaded. Every
+// successful exit of sstable.Iterator.Seek has passed indexIterator.Seek(target) — a fast path that answers from the
+// loaded block when it holds a key >= t lands on that block's first key for every target before the block.
+func ruleTableSeekAlwaysAsksIndex(c *Ctx, r *Reporter) {
+	r.Rule("table-seek-always-asks-the-index", 1)
+	fn := c.Func("pkg/sstable", "Iterator", "Seek")
+	idxF := c.Field("pkg/sstable", "Iterator", "indexIterator")
+	cons := "sstable.Iterator.Seek"
+	if fn == nil || idxF == nil || len(fn.Params) < 2 {
+		r.Unresolved(cons+" / indexIterator", "not found")
+		return
+	}
+	var exits []ssa.Instruction
+	for _, ret := range Returns(fn) {
+		if b, isK := constBool(ReturnValue(ret, 0)); isK && !b {
+			continue
+		}
+		exits = append(exits, ret)
+	}
+	bad, path := MustPass(fn, exits, func(i ssa.Instruction) bool {
+		call, ok := i.(*ssa.Call)
+		if !ok || call.Call.StaticCallee() == nil || call.Call.StaticCallee().Name() != "Seek" || len(call.Call.Args) < 2 {
+			return false
+		}
+		return isLoadOfField(call.Call.Args[0], idxF) && call.Call.Args[1] == ssa.Value(fn.Params[1])
+	})
+	if bad != nil {
+		r.Bad(cons, c.InsPos(bad), "Seek can answer without having asked the index for the target: the answer then comes from whatever block an earlier call left loaded — a backward seek across a block boundary lands on the first key of the loaded block and skips every entry in between", c.PathString(path)...)
+		return
+	}
+	r.OK(cons, c.FnPos(fn), fmt.Sprintf("all %d exit(s) that can report success lie behind indexIterator.Seek(target)", len(exits)))
+}
+
+// ruleOneTombstoneTracker (round 8): engine deletes are recorded in the coordinator's tombstone tracker; the executor's
+// filter must consult THAT tracker. The engine's compaction manager either lets the coordinator build the executor
+// (options.Executor unset), or hands over an executor together with the same tracker in options.TombstoneManager.
+func ruleOneTombstoneTracker(c *Ctx, r *Reporter) {
+	r.Rule("one-tombstone-tracker", 1)
+	fn := c.Func("pkg/engine/compaction", "", "NewManager")
+	newExec := c.Func("pkg/compaction", "", "NewCompactionExecutor")
+	cons := "enginecompaction.NewManager:options"
+	if fn == nil || newExec == nil {
+		r.Unresolved("engine/compaction.NewManager / compaction.NewCompactionExecutor", "not found")
+		return
+	}
+	var execV, trackV ssa.Value
+	AllInstrs(fn, false, func(_ *ssa.Function, ins ssa.Instruction) {
+		st, ok := ins.(*ssa.Store)
+		if !ok {
+			return
+		}
+		fa, ok := st.Addr.(*ssa.FieldAddr)
+		if !ok || !strings.HasSuffix(deref(fa.X.Type()).String(), "CompactionCoordinatorOptions") {
+			return
+		}
+		switch fieldName(fa) {
+		case "Executor":
+			execV = st.Val
+		case "TombstoneManager":
+			trackV = st.Val
+		}
+	})
+	if execV == nil || isNilConst(execV) {
+		r.OK(cons, c.FnPos(fn), "the coordinator builds the executor around its own tracker")
+		return
+	}
+	call := findCallIn(execV, newExec, 0)
+	ok := false
+	if call != nil && len(call.Call.Args) >= 3 && trackV != nil {
+		ok = stripAll(call.Call.Args[2]) == stripAll(trackV) || sameValue(stripAll(call.Call.Args[2]), stripAll(trackV))
+	}
+	r.Check(ok, cons, c.FnPos(fn), "executor and coordinator share one tracker", "an executor is handed to the coordinator without the tracker it was built with (options.TombstoneManager): the coordinator creates a second tracker, engine deletes are recorded there, the executor's filter asks the other, always empty one — a deletion marker compacted beyond the tombstone level is dropped however recent the delete, and an older version deeper down comes back")
+}
+
+// ruleHandlersKeepNoState (round 8): every answer of the service is computed from the engine / the replication manager at
+// the time of the request. RPC handlers do not write fields of the server object — a remembered 'last known' answer
+// (the replica list, say) outlives the facts: the primary drops a dead replica, the node-info call keeps listing it.
+func ruleHandlersKeepNoState(c *Ctx, r *Reporter) {
+	r.Rule("handlers-keep-no-state", 10)
+	hs := c19Handlers(c, r)
+	if hs == nil {
+		return
+	}
+	var names []string
+	for n := range hs {
+		names = append(names, n)
+	}
+	sort.Strings(names)
+	for _, hn := range names {
+		fn := hs[hn]
+		cons := "service.KevoServiceServer." + hn
+		var bad ssa.Instruction
+		badField := ""
+		AllInstrs(fn, true, func(_ *ssa.Function, ins ssa.Instruction) {
+			st, ok := ins.(*ssa.Store)
+			if !ok {
+				return
+			}
+			fa, ok := st.Addr.(*ssa.FieldAddr)
+			if !ok || !strings.HasSuffix(deref(fa.X.Type()).String(), "service.KevoServiceServer") {
+				return
+			}
+			bad = ins
+			badField = fieldName(fa)
+		})
+		if bad != nil {
+			r.Bad(cons, c.InsPos(bad), "the handler writes the server field "+badField+": an answer remembered from an earlier request is served later in place of the facts (and concurrent requests race on the field) — e.g. the last replica to disconnect stays listed as available for ever")
+		} else {
+			r.OK(cons, c.FnPos(fn), "writes no server state")
+		}
+	}
+}
+
+// ruleSweeperSweepsEveryTick (round 8): abandoned transactions are rolled back by the registry's ticker goroutine. On the
+// ticker arm of its select every iteration runs CleanupStaleTransactions (called or spawned) — unconditionally: a guard
+// that is never reset ('a sweep is already running') turns the sweeper off after its first tick.
+func ruleSweeperSweepsEveryTick(c *Ctx, r *Reporter) {
+	r.Rule("sweeper-sweeps-on-every-tick", 1)
+	fn := c.Func("pkg/transaction", "RegistryImpl", "cleanupStaleTx")
+	sweep := c.Func("pkg/transaction", "RegistryImpl", "CleanupStaleTransactions")
+	cons := "transaction.RegistryImpl.cleanupStaleTx"
+	if fn == nil || sweep == nil {
+		r.Unresolved(cons+" / CleanupStaleTransactions", "not found")
+		return
+	}
+	var sel *ssa.Select
+	tick := -1
+	AllInstrs(fn, false, func(_ *ssa.Function, ins ssa.Instruction) {
+		s, ok := ins.(*ssa.Select)
+		if !ok {
+			return
+		}
+		for i, st := range s.States {
+			if st.Dir == types.RecvOnly && strings.Contains(Path(st.Chan), "Ticker") {
+				sel, tick = s, i
+			}
+		}
+	})
+	if sel == nil {
+		r.Undecided(cons, c.FnPos(fn), "no select on the cleanup ticker found")
+		return
+	}
+	isSweep := func(i ssa.Instruction) bool {
+		ci, ok := i.(ssa.CallInstruction)
+		if !ok {
+			return false
+		}
+		if ci.Common().StaticCallee() == sweep {
+			return true
+		}
+		// go func() { r.CleanupStaleTransactions() }()
+		if mc, ok := ci.Common().Value.(*ssa.MakeClosure); ok {
+			if f, ok := mc.Fn.(*ssa.Function); ok {
+				return len(c.CallsIn(f, NewFnSet(sweep), true)) > 0
+			}
+		}
+		return false
+	}
+	// the block entered on the ticker arm
+	var arm *ssa.BasicBlock
+	for _, b := range fn.Blocks {
+		if len(b.Instrs) == 0 {
+			continue
+		}
+		iff, ok := b.Instrs[len(b.Instrs)-1].(*ssa.If)
+		if !ok {
+			continue
+		}
+		bo, ok := iff.Cond.(*ssa.BinOp)
+		if !ok || bo.Op != token.EQL {
+			continue
+		}
+		ex, ok := bo.X.(*ssa.Extract)
+		k, isK := constInt(bo.Y)
+		if ok && isK && ex.Tuple == ssa.Value(sel) && ex.Index == 0 && int(k) == tick {
+			arm = b.Succs[0]
+		}
+	}
+	if arm == nil {
+		r.Undecided(cons, c.InsPos(sel), "the ticker arm could not be located")
+		return
+	}
+	selIns := ssa.Instruction(sel)
+	hit, path := ReachBlock(arm, func(i ssa.Instruction) bool {
+		if i == selIns {
+			return true
+		}
+		_, isRet := i.(*ssa.Return)
+		return isRet
+	}, isSweep, nil)
+	if hit != nil {
+		r.Bad(cons, c.blockPos(arm), "a tick can pass without a sweep: the path from the ticker arm back to the select (or out of the goroutine) avoids CleanupStaleTransactions — with a guard that is set once and never cleared only the first tick sweeps, and a transaction abandoned later keeps its database lock until somebody happens to call BeginTransaction", c.PathString(path)...)
+		return
+	}
+	r.OK(cons, c.InsPos(sel), "every tick runs CleanupStaleTransactions")
+}
+
+// ruleModeComparedVerbatim (round 8): several places interpret the configured replication mode (Manager.Start decides what
+// runs, the node-info calls decide what is reported). They agree only because every one of them compares the stored
+// string itself with the mode constants. No comparison with a mode constant may be made on a transformed value
+// (ToLower, TrimSpace, …): a node started from 'REPLICA' would run as a replica and report itself standalone.
+func ruleModeComparedVerbatim(c *Ctx, r *Reporter) {
+	r.Rule("mode-is-compared-verbatim", 3)
+	modes := map[string]bool{}
+	for _, n := range []string{"ReplicationModePrimary", "ReplicationModeReplica", "ReplicationModeStandalone"} {
+		if k := c.Const("pkg/replication", n); k != nil {
+			modes[constant.StringVal(k.Val())] = true
+		}
+	}
+	if len(modes) == 0 {
+		r.Unresolved("replication.ReplicationMode*", "not found")
+		return
+	}
+	perFn := map[string]int{}
+	for _, fn := range c.KevoFns {
+		p := pkgOf(fn)
+		if p != "pkg/replication" && p != "pkg/grpc/service" && !strings.HasPrefix(p, "cmd/") {
+			continue
+		}
+		AllInstrs(fn, false, func(_ *ssa.Function, ins ssa.Instruction) {
+			bo, ok := ins.(*ssa.BinOp)
+			if !ok || (bo.Op != token.EQL && bo.Op != token.NEQ) {
+				return
+			}
+			for _, pair := range [][2]ssa.Value{{bo.X, bo.Y}, {bo.Y, bo.X}} {
+				s, isS := constString(pair[0])
+				if !isS || !modes[s] {
+					continue
+				}
+				other := pair[1]
+				if _, isConst := other.(*ssa.Const); isConst {
+					continue
+				}
+				name := FnName(topParent(fn))
+				perFn[name]++
+				cons := fmt.Sprintf("%s:mode==%q#%d", name, s, perFn[name])
+				_, isCall := other.(*ssa.Call)
+				r.Check(!isCall, cons, c.InsPos(ins), "compares the stored value itself", "the mode is compared after a transformation ("+Path(other)+"): this site accepts spellings the other interpreters of the mode do not — the node runs in one role (read-only replica) and the node-info calls, which compare the raw string, report another (standalone, no primary address)")
+			}
+		})
+	}
+}
+
+// ruleApplierPropagatesErrors (round 8): the replica advances its position past an entry only if applying it succeeded;
+// ApplyEntries learns that from the error EngineApplier returns. In every apply method of EngineApplier the error of each
+// engine operation reaches the caller: no success exit is reachable on the error edge of an engine Put/Delete (a
+// discarded result lets the position skip an operation that never ran; the repairing retransmission is then refused as a
+// duplicate).
+func ruleApplierPropagatesErrors(c *Ctx, r *Reporter) {
+	r.Rule("applier-propagates-engine-errors", 4)
+	n := 0
+	for _, fn := range c.KevoFns {
+		if recvTypeName(topParent(fn)) != "replication.EngineApplier" || fn.Parent() != nil {
+			continue
+		}
+		idx := 0
+		AllInstrs(fn, false, func(_ *ssa.Function, ins ssa.Instruction) {
+			call, ok := ins.(*ssa.Call)
+			if !ok {
+				return
+			}
+			name := ""
+			if call.Call.IsInvoke() {
+				name = call.Call.Method.Name()
+			} else if f := call.Call.StaticCallee(); f != nil {
+				name = f.Name()
+			}
+			switch name {
+			case "Put", "Delete", "PutInternal", "DeleteInternal", "ApplyBatch", "ApplyBatchInternal":
+			default:
+				return
+			}
+			if !isErrorType(call.Type()) {
+				return
+			}
+			n++
+			idx++
+			cons := fmt.Sprintf("%s:%s#%d", FnName(fn), name, idx)
+			if call.Referrers() == nil || len(*call.Referrers()) == 0 {
+				r.Bad(cons, c.InsPos(ins), "the result of the engine operation is discarded: a failed "+name+" reports success, the replica's position moves past an operation that never ran, and the retransmission that would repair it is refused as a duplicate — the replica's data matches no prefix of the primary's history")
+				return
+			}
+			okFact := callOKFact(c, func(cl *ssa.Call) bool { return cl == call })
+			ei := errResultIndex(fn)
+			bad, path := ReachE(fn, ins, func(i ssa.Instruction) bool {
+				ret, isRet := i.(*ssa.Return)
+				if !isRet || ei < 0 || ClassifyReturn(ret) == ExitFailure {
+					return false
+				}
+				// handing the operation's own error back is propagation
+				return !flowsFromPred(ReturnValue(ret, ei), func(v ssa.Value) bool { return v == ssa.Value(call) }, 0, map[ssa.Value]bool{})
+			}, nil, PruneFactEdges(okFact))
+			if bad != nil {
+				r.Bad(cons, c.InsPos(bad), "a success exit is reachable although the engine "+name+" failed", c.PathString(path)...)
+				return
+			}
+			r.OK(cons, c.InsPos(ins), "the error reaches the caller")
+		})
+	}
+	if n == 0 {
+		r.Undecided("replication.EngineApplier", "-", "no engine operation found")
 	}
 }
